@@ -433,10 +433,11 @@ Inductive label :=
 | LRecvPushPromise (sid promised : N) (o : pobs) (nk : N)
 | LRecvPriority (sid : N)
 | LRecvGoAway (last code : N) (debug : list N)
-| LRecvEof (relabel : list N)          (* keys still in pending_send with a scheduled reset when the queues are cleared *)
+| LRecvEof (relabel failed : list N)   (* keys still in pending_send with a scheduled reset when the queues are cleared;
+                                          keys of the promised records failed with a dropped PUSH_PROMISE *)
 (* the connection's reactions (separate lock sections) *)
 | LPoll2Reset (sid code : N) (quota can : bool) (nk : N)   (* DynStreams::send_reset from handle_poll2_result *)
-| LHandleError (e : perror)                            (* DynStreams::handle_error *)
+| LHandleError (e : perror) (failed : list N)          (* DynStreams::handle_error; keys of the promised records failed *)
 | LGoAwaySent (last : N)                               (* DynStreams::send_go_away *)
 | LSendRefusal                                         (* Recv::send_pending_refusal with room in the codec *)
 | LRemoteSettingsPush (b : bool)                       (* SETTINGS_ENABLE_PUSH from the peer *)
@@ -721,9 +722,25 @@ Definition step_recv_go_away (st : conn) (last code : N) (debug : list N) : outc
 Definition linked_queues (st : conn) : list qframe :=
   flat_map (fun kr => if is_linked st (fst kr) then s_q (snd kr) else []) (c_slab st).
 
-Definition step_handle_error (st : conn) (e : perror) : outcome :=
-  res1 (fail_promised (with_conn_error (with_slab st (map_linked st (fun _ r => fail_rec e r))) (Some e))
-                      (linked_queues st)) [] ROk.
+(* store.for_each clears the queues one record after the other, and every record visited goes through transition_after,
+   which may unlink it on the spot: a PUSH_PROMISE dropped from a parent's queue fails the promised stream only if that
+   stream is still linked at that moment.  The order of the visits (an IndexMap with swap_remove) is not modelled: which
+   promised records were failed is an observed input (`failed`, their keys); each must be promised by a queued
+   PUSH_PROMISE of a linked record *)
+Fixpoint promised_in (sid : N) (q : list qframe) : bool :=
+  match q with
+  | [] => false
+  | QPush p :: q' => (p =? sid) || promised_in sid q'
+  | _ :: q' => promised_in sid q'
+  end.
+Definition fail_keys (st : conn) (failed : list N) : conn :=
+  fold_left (fun st' k => match kget st' k with Some c => put st' k (failed_promise c) | None => st' end) failed st.
+Definition failed_ok (st : conn) (failed : list N) : bool :=
+  forallb (fun k => match kget st k with Some c => promised_in (s_id c) (linked_queues st) | None => false end) failed.
+
+Definition step_handle_error (st : conn) (e : perror) (failed : list N) : outcome :=
+  if negb (failed_ok st failed) then Stuck 43
+  else res1 (fail_keys (with_conn_error (with_slab st (map_linked st (fun _ r => fail_rec e r))) (Some e)) failed) [] ROk.
 
 Definition conn_eof_error : perror := EIo IO_BROKEN_PIPE (Some CONN_EOF_MSG).
 
@@ -744,13 +761,13 @@ Definition unqueue_rec (relabel : list N) (kr : N * srec) : N * srec :=
             end in
   (k, mkS (s_id r) s2 false (s_ppush r) false (s_q r) (s_infl r)).
 
-Definition step_recv_eof (st : conn) (relabel : list N) : outcome :=
+Definition step_recv_eof (st : conn) (relabel failed : list N) : outcome :=
   let st1 := match c_conn_error st with
              | None => with_conn_error st (Some conn_eof_error)
              | Some _ => st
              end in
-  res1 (fail_promised (with_slab st1 (map (unqueue_rec relabel) (map_linked st1 (eof_rec relabel)))) (linked_queues st1))
-       [] ROk.
+  if negb (failed_ok st failed) then Stuck 44
+  else res1 (fail_keys (with_slab st1 (map (unqueue_rec relabel) (map_linked st1 (eof_rec relabel)))) failed) [] ROk.
 
 (* ---------------------------------------------------------------------------------------------
    the connection's reactions *)
@@ -1069,9 +1086,9 @@ Definition step (st : conn) (l : label) : outcome :=
   | LRecvPushPromise sid promised o nk => step_recv_push_promise st sid promised o nk
   | LRecvPriority _ => res1 st [] ROk
   | LRecvGoAway last code debug => step_recv_go_away st last code debug
-  | LRecvEof relabel => step_recv_eof st relabel
+  | LRecvEof relabel failed => step_recv_eof st relabel failed
   | LPoll2Reset sid code quota can nk => step_poll2_reset st sid code quota can nk
-  | LHandleError e => step_handle_error st e
+  | LHandleError e failed => step_handle_error st e failed
   | LGoAwaySent last => step_go_away_sent st last
   | LSendRefusal => step_send_refusal st
   | LRemoteSettingsPush b => Ok (with_push_remote st b) []
